@@ -1104,6 +1104,34 @@ class CdescIn(Atom):
         return " %s=%s" % (n, ",".join(rnd(self.t, x) for x in v))
 
 
+class CStrInImplied(Atom):
+    """const char *s, int ns +implied(len_trim(s)) | +implied(len(s)): the library is told the trimmed / declared length
+    of the caller's variable without the caller passing it"""
+
+    py = False
+    lua = False
+    c_api = False
+
+    def __init__(self, fn):
+        Atom.__init__(self, "cstr_in_implied_" + fn)
+        self.fn = fn  # 'len_trim' | 'len'
+
+    def decl(self, n):
+        return ["const char *%s" % n, "int n%s +implied(%s(%s))" % (n, self.fn, n)]
+
+    def cparams(self, n, lang):
+        return ["const char *%s" % n, "int n%s" % n]
+
+    def body(self, n, lang):
+        return ['vt_txt(" %s=");' % n, "vt_z(%s);" % n, 'vt_txt(" n%s=");' % n, "vt_i(n%s);" % n], []
+
+    def values(self):
+        return STR_VALS + ["   "]
+
+    def recv(self, n, v):
+        return " %s=%s n%s=%d" % (n, rs(v.rstrip(" ")), n, len(v.rstrip(" ")) if self.fn == "len_trim" else len(v))
+
+
 def values_of(atom):
     return atom._vals if atom._vals is not None else atom.values()
 
@@ -1658,7 +1686,8 @@ def core_args(level=1):
     A += [PtrPtrOut(T["int"], "fixed"), PtrPtrOut(T["int"], "dyn"), PtrPtrOut(T["double"], "dyn"), VoidPtr(), StrArrIn(), PtrPtrIn(T["int"]), PtrPtrIn(T["double"])]
     # rows found missing by the statement-table coverage report (vt.stmtcov): generated and compiled, but never executed
     A += [StrOut("out", ptr=True), PtrRefOut(T["int"], "fixed"), PtrRefOut(T["double"], "dyn"), PtrPtrConstOut(T["double"]), PtrPtrRaw(T["int"]),
-          ArrOutAlloc(T["int"]), ArrOutAlloc(T["double"]), VecInoutAlloc(T["int"]), VoidPP("in"), VoidPP("out"), VoidPP("refout"), CdescIn(T["int"]), CdescIn(T["double"])]
+          ArrOutAlloc(T["int"]), ArrOutAlloc(T["double"]), VecInoutAlloc(T["int"]), VoidPP("in"), VoidPP("out"), VoidPP("refout"), CdescIn(T["int"]), CdescIn(T["double"]),
+          CStrInImplied("len_trim"), CStrInImplied("len")]
     return A
 
 
